@@ -262,6 +262,10 @@ def run(chk):
                     break
             ok = isinstance(first_use, ast.Expr) and isinstance(first_use.value, ast.Call) and call_name(first_use.value) == "self._raise_errors" and first_use.value.args and isinstance(first_use.value.args[0], ast.Name) and first_use.value.args[0].id == lv
             r5.expect(ok, "%s: a line read at line %d goes through _raise_errors first" % (f.qualname, rd.lineno), "%s:line-used-before-error-check" % f.qualname, "in %s the reply line `%s` is first used by `%s` rather than checked by _raise_errors: an ERROR / CLIENT_ERROR / SERVER_ERROR reply would be interpreted as a result" % (f.qualname, lv, node_src(first_use, 60) if first_use is not None else None), fn=f, node=rd)
+    # a call's result is computed from its whole reply, and only from it (the C01 framing rule)
+    from . import rules_C01, report
+
+    report.include_rules(chk, r5, rules_C01, ("C01.R3",), "each call reads exactly the reply lines of its own commands, up to the terminator")
     # the value that decides whether replies are read is the one that put ` noreply` on the wire (same rule as C01.R2b)
     wire.check_noreply_coupling(prog, r4)
     chk.assume("the server answers with a reply from the verb's alphabet (error lines are handled by _raise_errors before these tables)")
